@@ -532,6 +532,15 @@ func (r *replicateChannelManager) AddPartition(ctx context.Context, dbInfo *mode
 		return errors.New("no handler found")
 	}
 
+	// the same partition may be notified more than once, like it's in the partition list and the watch event
+	r.partitionLock.Lock()
+	_, isReplicating := r.replicatePartitions[collectionID][partitionInfo.PartitionID]
+	r.partitionLock.Unlock()
+	if isReplicating {
+		partitionLog.Info("the partition is already replicated")
+		return nil
+	}
+
 	firstHandler := handlers[0]
 	targetInfo, err := firstHandler.getCollectionTargetInfo(collectionID)
 	if err != nil {
